@@ -20,7 +20,7 @@ def layerInversions : List (String × String) := [("pil_im.mode == 'CMYK'", "pil
 
 /-! api/psd_image.py `PSDImage.frompil`, `_make_header` -/
 
-def docFrompil : List String := ["if image.mode == '1': { image = image.convert('L') }", "header = cls._make_header(image.mode, image.size)", "if image.mode == 'CMYK': { image = ImageChops.invert(image) }", "image_data = ImageData(compression=compression)", "image_data.set_data([channel.tobytes() for channel in image.split()], header)", "return cls(PSD(header=header, image_data=image_data, image_resources=ImageResources.new()))"]
+def docFrompil : List String := ["if image.mode == '1': { image = image.convert('L') }", "header = cls._make_header(image.mode, image.size)", "if image.mode == 'CMYK': { image = ImageChops.invert(image) } else { if image.mode in ('La', 'RGBa'): { image = image.convert(image.mode.upper()) } }", "image_data = ImageData(compression=compression)", "image_data.set_data([channel.tobytes() for channel in image.split()], header)", "return cls(PSD(header=header, image_data=image_data, image_resources=ImageResources.new()))"]
 def docInversions : List (String × String) := [("image.mode == 'CMYK'", "image = ImageChops.invert(image)")]
 def headerDepthDefault : String := "8"
 def headerAsserts : List String := ["depth in (8, 16, 32)"]
